@@ -77,7 +77,9 @@ Examples:
 func init() {
 	saveCmd.Flags().StringSliceP("keywords", "k", nil, "Keywords for the command (comma-separated)")
 	saveCmd.Flags().StringP("category", "c", "", "Category/niche for the command")
-	saveCmd.Flags().StringSliceP("platforms", "p", nil, "Supported platforms (comma-separated)")
+	// No "-p" shorthand here: the root command's persistent --platform flag owns
+	// it, and cobra panics at start-up when a command redefines a shorthand.
+	saveCmd.Flags().StringSlice("platforms", nil, "Supported platforms (comma-separated)")
 	saveCmd.Flags().BoolP("pipeline", "", false, "Mark as a pipeline command")
 }
 
